@@ -447,7 +447,6 @@ theorem parseExtraField_fuel_mono : ∀ (fuel : Nat) (f : FileData) (rest : Byte
         split
         · rfl
         apply ih
-        rw [List.length_drop]
         simp only [List.length_cons] at e4
         omega
       · apply ih
